@@ -23,9 +23,12 @@ type Spec struct {
 	Require     []string // counters that must be non-zero in the merged result, else inconclusive
 	Workers     int      // 0 = default (16)
 	UsesCur     bool     // write current-case files (cases that can die with a fatal error)
+	// FakeTimeWorkers > 0: that many additional workers are started from the binary built with the
+	// runtime's faketime tag (<binary>-ft); they run the EachFT case groups on a virtual process clock.
+	FakeTimeWorkers int
 	// EnvFn returns extra environment variables for the workers, given the run directory.
 	EnvFn func(dir string) []string
-	Run         func(c *Ctx)
+	Run   func(c *Ctx)
 	// Post may inspect the merged result and add inconclusive reasons or violations.
 	Post func(m *Merged)
 	// Exhaustive names the finite spaces this check completes in each tier (informational; the
@@ -139,24 +142,44 @@ func RunParent(spec *Spec, opt Options) int {
 		done chan error
 	}
 	var ws []*wk
-	for i := 0; i < n; i++ {
+	nft := spec.FakeTimeWorkers
+	if nft > 0 && opt.Only != "" {
+		nft = 1
+	}
+	ftBin := os.Args[0] + "-ft"
+	if nft > 0 {
+		if _, err := os.Stat(ftBin); err != nil {
+			fmt.Printf("INCONCLUSIVE property=%s reason=the worker binary with the virtual clock (%s) was not built\n", spec.ID, ftBin)
+			return 2
+		}
+	}
+	for k := 0; k < n+nft; k++ {
+		i, pool, bin, tag := k, n, os.Args[0], ""
+		if k >= n {
+			i, pool, bin, tag = k-n, nft, ftBin, "ft-"
+		}
 		w := &wk{
-			out: filepath.Join(dir, fmt.Sprintf("res-%d.json", i)),
-			cur: filepath.Join(dir, fmt.Sprintf("cur-%d", i)),
-			log: filepath.Join(dir, fmt.Sprintf("worker-%d.log", i)),
+			out: filepath.Join(dir, fmt.Sprintf("res-%s%d.json", tag, i)),
+			cur: filepath.Join(dir, fmt.Sprintf("cur-%s%d", tag, i)),
+			log: filepath.Join(dir, fmt.Sprintf("worker-%s%d.log", tag, i)),
 		}
 		args := []string{"-property", spec.ID, "-tier", opt.Tier, "-seed", strconv.FormatUint(opt.Seed, 10),
-			"-worker", fmt.Sprintf("%d/%d", i, n), "-out", w.out, "-dir", dir}
+			"-worker", fmt.Sprintf("%d/%d", i, pool), "-out", w.out, "-dir", dir}
 		if spec.UsesCur {
 			args = append(args, "-cur", w.cur)
 		}
 		if opt.Only != "" {
 			args = append(args, "-only", opt.Only)
 		}
-		w.cmd = exec.Command(os.Args[0], args...)
+		w.cmd = exec.Command(bin, args...)
 		w.cmd.Env = append(os.Environ(), opt.Env...)
 		if spec.EnvFn != nil {
 			w.cmd.Env = append(w.cmd.Env, spec.EnvFn(dir)...)
+		}
+		if tag != "" {
+			// with more than one P the faketime runtime of go 1.23 livelocks in GC mark termination
+			// (forEachP never completes while the clock is being advanced): one P per virtual-clock worker
+			w.cmd.Env = append(w.cmd.Env, "GOMAXPROCS=1")
 		}
 		lf, _ := os.Create(w.log)
 		w.cmd.Stdout = lf
